@@ -103,9 +103,15 @@ def accessor_of(v):
     if not isinstance(v, SymbolCall) or v.kw or len(v.args) != 1:
         return None
     f = v.args[0]
-    if not isinstance(f, FmtV) or len(f.parts) != 3 or f.parts[0] != "format" or not isinstance(f.parts[1], str) or not isinstance(f.parts[2], SymV):
+    if not isinstance(f, FmtV):
         return None
-    return f.parts[1], f.parts[2].z
+    if len(f.parts) == 3 and f.parts[0] == "format" and isinstance(f.parts[1], str) and isinstance(f.parts[2], SymV):
+        return f.parts[1], f.parts[2].z
+    # structural form shared by f-strings and str.format: literal pieces around exactly one member symbol
+    holes = [p for p in f.parts if not isinstance(p, str)]
+    if len(holes) == 1 and isinstance(holes[0], SymV) and f.parts[0] != "format":
+        return "".join(p if isinstance(p, str) else "{}" for p in f.parts), holes[0].z
+    return None
 
 
 def check_substitution(P, pre, W, seq, groups):
